@@ -674,8 +674,23 @@ def leftover_oracle(entries, specs, level=logging.WARNING):
     return total + max(0, rest - blanket)
 
 
-def cli_case(cid, prot, opts, maxwarn_groups, pre_names, verbose=False, write_dump=None):
-    aa = os.path.join(T0, prot, 'aa.pdb')
+def altloc_input(prot):
+    """copy of the test structure with one alternate-location record: a 'pdb-alternate' warning that is
+    logged before every other warning of the run"""
+    out, done = [], False
+    for l in open(os.path.join(T0, prot, 'aa.pdb')):
+        out.append(l)
+        if not done and l.startswith('ATOM') and l[12:16].strip() == 'CA':
+            out.append(l[:16] + 'B' + l[17:])
+            done = True
+    path = os.path.join(SCRATCH, 'altloc_%s.pdb' % prot)
+    with open(path, 'w') as f:
+        f.writelines(out)
+    return path
+
+
+def cli_case(cid, prot, opts, maxwarn_groups, pre_names, verbose=False, write_dump=None, altloc=False):
+    aa = altloc_input(prot) if altloc else os.path.join(T0, prot, 'aa.pdb')
     argv = ['-f', aa, '-x', 'cg.pdb', '-o', 'topol.top'] + opts
     for g in maxwarn_groups:
         argv += ['-maxwarn'] + g
@@ -768,6 +783,9 @@ WARN_OPTS = {
     'mutate': (['-ff', 'martini22', '-ss', 'C', '-noscfix', '-mutate', 'A-GLY999:ALA'], 1),   # general
     'modify': (['-ff', 'martini3001', '-ss', 'C', '-noscfix', '-modify', 'XXX99:N-ter'], 1),
     'both': (['-ff', 'martini22', '-ss', 'C', '-scfix', '-mutate', 'A-GLY999:ALA'], 3),
+    # two warning types with different counts: a blanket allowance must be consumed across them
+    'mutate2': (['-ff', 'martini22', '-ss', 'C', '-noscfix', '-mutate', 'A-GLY998:ALA', '-mutate', 'A-GLY999:ALA'], 2),
+    'both2': (['-ff', 'martini22', '-ss', 'C', '-scfix', '-mutate', 'A-GLY998:ALA', '-mutate', 'A-GLY999:ALA'], 4),
 }
 cli_plan = [
     ('none', [], ['cg.pdb', '#cg.pdb.1#', 'molecule_0.itp', 'other.txt'], {}),
@@ -777,6 +795,10 @@ cli_plan = [
     ('scfix', [['general'], ['missing-feature:1']], [], {}),
     ('mutate', [['missing-feature']], ['cg.pdb'], {}),           # waiver of another type: leftover 1
     ('scfix', [], [], {'write_dump': 'graph_dump.pdb'}),
+    ('both', [['2']], ['cg.pdb'], {}),                            # blanket smaller than the total over two types
+    ('both2', [['3']], [], {}),
+    # first-counted type smaller than the blanket allowance, total above it (1 pdb-alternate + 2 general, -maxwarn 2)
+    ('mutate2', [['2']], [], {'altloc': True}),
 ]
 rng = chk.rng('cli')
 if chk.thorough:
